@@ -1,4 +1,5 @@
 ---- MODULE MC_ReadPipeline ----
 EXTENDS ReadPipeline
-MShapes == { <<>>, <<"map">>, <<"fix">>, <<"limit">>, <<"map", "fix">>, <<"limit", "map">>, <<"map", "limit">>, <<"fix", "map">>, <<"map", "map", "fix">> }
+MShapes == { <<>>, <<"map">>, <<"fix">>, <<"limit">>, <<"map", "fix">>, <<"limit", "map">>, <<"map", "limit">>, <<"fix", "map">>, <<"map", "map", "fix">>,
+             <<"hold">>, <<"map", "hold">>, <<"hold", "map">>, <<"limit", "hold">>, <<"map", "hold", "fix">> }
 ====
